@@ -254,21 +254,25 @@ def check_split(part_name, K, parent, children, where=""):
                 raise Violation("C02.contain", "child box %r not inside parent %r %s" % (cb, pb, where))
     if part_name == "DimensionBinary":
         # children are exactly the Cartesian product of the per-dimension halves, each once
-        mids = []
+        import itertools
+        from collections import Counter
+
+        halves = []
         for dim in range(d):
-            los = sorted({cb[dim] for cb in cbs})
-            if len(los) != 2:
-                raise Violation("C02.product", "dimension %d has %d distinct child intervals, expected 2 %s" % (dim, len(los), where))
-            (a0, a1), (b0, b1) = los
-            if not (a0 == pb[dim][0] and b1 == pb[dim][1] and a1 == b0):
-                raise Violation("C02.faces", "dimension %d halves %r do not share a boundary / keep the parent's faces %r %s"
-                                % (dim, los, pb[dim], where))
-            mids.append(a1)
+            m = cbs[0][dim][1]  # upper bound of the first child's interval = the shared boundary
+            if not all(cb[dim] in ((pb[dim][0], m), (m, pb[dim][1])) for cb in cbs):
+                bad = [cb[dim] for cb in cbs if cb[dim] not in ((pb[dim][0], m), (m, pb[dim][1]))]
+                raise Violation("C02.faces", "dimension %d: child interval %r is neither [parent lo, m] nor [m, parent hi] "
+                                "with m=%r, parent %r %s" % (dim, bad[0], m, pb[dim], where))
             exact = (_fr(pb[dim][0]) + _fr(pb[dim][1])) / 2
-            if not _ulp_close(a1, exact, 2, max(abs(pb[dim][0]), abs(pb[dim][1]))):
-                raise Violation("C02.equal", "split of dimension %d at %r is not the midpoint of %r %s" % (dim, a1, pb[dim], where))
-        if len({tuple(cb) for cb in cbs}) != 2 ** d:
-            raise Violation("C02.product", "children are not 2^d distinct boxes %s" % where)
+            if not _ulp_close(m, exact, 2, max(abs(pb[dim][0]), abs(pb[dim][1]))):
+                raise Violation("C02.equal", "split of dimension %d at %r is not the midpoint of %r %s" % (dim, m, pb[dim], where))
+            halves.append(((pb[dim][0], m), (m, pb[dim][1])))
+        want_boxes = Counter(tuple(c) for c in itertools.product(*halves))
+        got_boxes = Counter(tuple(cb) for cb in cbs)
+        if want_boxes != got_boxes:
+            raise Violation("C02.product", "children are not the Cartesian product of the per-dimension halves, each once "
+                            "(parent %r, children %r) %s" % (pb, cbs, where))
         split_dims = list(range(d))
     else:
         # exactly one split dimension; other dimensions bit-equal to the parent's
@@ -309,7 +313,7 @@ def check_split(part_name, K, parent, children, where=""):
     return split_dims
 
 
-def check_tiling(partition, where=""):
+def check_tiling(partition, where="", pairwise_max=24):
     """C02, per state: leaves have exact rational volumes summing to the root's and are
     pairwise interior-disjoint (exact arithmetic on the float bounds)."""
     root = partition.get_root()
@@ -331,6 +335,9 @@ def check_tiling(partition, where=""):
         for (lo, hi), (rlo, rhi) in zip(bi, rb):
             if not (rlo <= lo <= hi <= rhi):
                 raise Violation("C02.tiling", "leaf %r sticks out of the domain %r %s" % (bi, rb, where))
+        if len(boxes) > pairwise_max:
+            # large trees: disjointness follows by induction from the per-split checks
+            continue
         for j in range(i + 1, len(boxes)):
             bj = boxes[j]
             # interiors intersect iff on every dimension the open intervals intersect
